@@ -56,6 +56,8 @@ pub enum Sock {
     /// well-formed JSON of the right shape whose enum payloads are outside what the daemon can produce
     /// (clockAccuracy ProfileSpecific(200), timeSource ProfileSpecific(200))
     OutOfRange,
+    /// well-formed JSON of the right shape generated over the full range of every field (C19's generator), case k
+    Generated(u16),
 }
 
 const REQ: &[u8] = b"GET /metrics HTTP/1.1\r\nHost: localhost\r\nAccept: */*\r\n\r\n";
@@ -100,6 +102,10 @@ fn sock_behaviour(s: Sock, valid: &[u8]) -> SockBehaviour {
         Sock::NotJson => SockBehaviour::Payload(b"<html>not json</html>".to_vec()),
         Sock::EmptyClose => SockBehaviour::EmptyClose,
         Sock::Refused => SockBehaviour::Refused,
+        Sock::Generated(k) => {
+            let mut t = Tape::fresh(0xc20_c19, k as u64);
+            SockBehaviour::Payload(crate::c19::gen_json_state(&mut t).into_bytes())
+        }
         Sock::OutOfRange => {
             let mut v: serde_json::Value = serde_json::from_slice(valid).expect("valid payload parses");
             v["instance"]["default_ds"]["clock_quality"]["clock_accuracy"] = serde_json::json!({"ProfileSpecific": 200});
@@ -364,7 +370,21 @@ pub fn run(ctx: &Ctx) -> i32 {
     let mut tape = Tape::fresh(ctx.seed ^ 0xc20, 1);
     for _ in 0..nsample {
         let l = 3 + tape.below(2) as usize;
-        seqs.push((0..l).map(|_| *tape.pick(&pairs)).collect());
+        seqs.push(
+            (0..l)
+                .map(|_| {
+                    let mut p = *tape.pick(&pairs);
+                    if needs_observation(p.0) && tape.chance(1, 4) {
+                        p.1 = Sock::Generated(tape.below(65536) as u16);
+                    }
+                    p
+                })
+                .collect(),
+        );
+    }
+    // every kind of state the observation socket could conceivably hold, one request each
+    for k in 0..ctx.cases(400, 20_000) {
+        seqs.push(vec![(Client::GoodGet, Sock::Generated(k as u16))]);
     }
     let mut seen_sigs = std::collections::HashSet::new();
     let t0 = Instant::now();
@@ -415,7 +435,7 @@ pub fn run(ctx: &Ctx) -> i32 {
         Finish {
             ctx,
             level: "fault_enumeration",
-            rule: "the statime-metrics-exporter binary built from /repo is run as a subprocess; a case is a sequence of (client behaviour, observation-socket behaviour) pairs followed by a probe (well-formed GET with valid JSON behind it). Client behaviours: well-formed GET, close after 0/1/3/17 bytes, close one byte before the end of the header terminator, 2048/2049/4096 bytes without terminator then close, POST/HEAD/lowercase get, GET split over 2-5 writes, split inside the header terminator and after its first 1/2/3/7 bytes, TCP reset before sending, reset after sending without reading the reply. Socket behaviours: valid JSON, truncated JSON, wrong-shape JSON, not JSON, accept-and-close, socket absent, well-formed JSON with out-of-range enum payloads (ProfileSpecific(200) accuracy / time source). All sequences of length 1 and 2 are enumerated exhaustively (quick: reduced alphabet), lengths 3-4 sampled, plus for every disturbing client a run of 14 (thorough also 40) in a row. Oracle: the probe gets a complete 200 response with matching Content-Length within 5 s; well-formed requests inside the sequence get 200 (500 when the socket misbehaved); on a miss the process is inspected (exited / spinning by CPU time / hanging). Non-trivial = the sequence contains a behaviour other than a well-formed GET with valid JSON; distinct by sequence.",
+            rule: "the statime-metrics-exporter binary built from /repo is run as a subprocess; a case is a sequence of (client behaviour, observation-socket behaviour) pairs followed by a probe (well-formed GET with valid JSON behind it). Client behaviours: well-formed GET, close after 0/1/3/17 bytes, close one byte before the end of the header terminator, 2048/2049/4096 bytes without terminator then close, POST/HEAD/lowercase get, GET split over 2-5 writes, split inside the header terminator and after its first 1/2/3/7 bytes, TCP reset before sending, reset after sending without reading the reply. Socket behaviours: valid JSON, truncated JSON, wrong-shape JSON, not JSON, accept-and-close, socket absent, well-formed JSON with out-of-range enum payloads (ProfileSpecific(200) accuracy / time source), well-formed JSON generated over the full range of every field (400 states, thorough 20000, one request each, and mixed into the sampled sequences). All sequences of length 1 and 2 are enumerated exhaustively (quick: reduced alphabet), lengths 3-4 sampled, plus for every disturbing client a run of 14 (thorough also 40) in a row. Oracle: the probe gets a complete 200 response with matching Content-Length within 5 s; well-formed requests inside the sequence get 200 (500 when the socket misbehaved); on a miss the process is inspected (exited / spinning by CPU time / hanging). Non-trivial = the sequence contains a behaviour other than a well-formed GET with valid JSON; distinct by sequence.",
             assumptions: vec!["only clients that go away are generated (a client that stays connected and silent is not)".into(), "loopback TCP and Unix sockets of the sandbox kernel".into()],
             min_nontrivial: 10,
         },
@@ -435,6 +455,11 @@ pub fn replay(_ctx: &Ctx, path: &str) -> i32 {
             for sk in SOCKS_FULL.iter() {
                 if part == format!("{:?}, {:?}", c, sk) {
                     seq.push((*c, *sk));
+                }
+            }
+            if let Some(rest) = part.strip_prefix(&format!("{:?}, Generated(", c)) {
+                if let Ok(k) = rest.trim_end_matches(')').parse::<u16>() {
+                    seq.push((*c, Sock::Generated(k)));
                 }
             }
         }
